@@ -222,57 +222,74 @@ def Rule.guard (rule : Rule) (norm : α → α) (p c : α) : Bool :=
 def St.link (rule : Rule) (s : St α) (t p : Nat) : St α :=
   if rule.chainCheck && !(chainAvoids (ptrOf s) (s.tables.length + 1) p t) then s else s.setParent t p
 
-/-- `annotate_doc` of class `d` (`defsOnly`: first-level definitions only).  `fuel` bounds the
-    nesting of analyses (every nested analysis publishes a table first, so the number of
-    classes is always enough). -/
+/-- `get_symbol_table_for_class_def_only(c)` inside an analysis: the published table, else a
+    definitions-only analysis (`nested`) -/
+def ensureWith (norm : α → α) (ds : List (ClassDecl α)) (nested : St α → ClassDecl α → Res α)
+    (s : St α) (c : α) : Res α :=
+  match findDecl norm ds c with
+  | none => .ok s
+  | some cd =>
+    match s.tableOf norm cd.name with
+    | some _ => .ok s
+    | none => nested s cd
+
+/-- a name looked up in the chain of a used entity (after making sure it has a table) -/
+def useLookupWith (norm : α → α) (ds : List (ClassDecl α)) (nested : St α → ClassDecl α → Res α)
+    (s : St α) (u : α) : Res α :=
+  (ensureWith norm ds nested s u).andThen fun s =>
+    match s.tableOf norm u with
+    | none => .ok s
+    | some tu => s.lookupMiss tu
+
+def usesLoop (norm : α → α) (ds : List (ClassDecl α)) (nested : St α → ClassDecl α → Res α)
+    (uses : List α) (s : St α) : Res α :=
+  uses.foldl (fun r u => r.andThen fun s => useLookupWith norm ds nested s u) (.ok s)
+
+/-- the parent part of `handle_class` for the table `t` of class `d` -/
+def linkParent (rule : Rule) (norm : α → α) (ds : List (ClassDecl α)) (nested : St α → ClassDecl α → Res α)
+    (t : Nat) (d : ClassDecl α) (s : St α) : Res α :=
+  match d.parent with
+  | none => .ok s
+  | some p =>
+    if rule.guard norm p d.name then .ok s
+    else match findDecl norm ds p with
+      | none => .ok s
+      | some pd =>
+        (ensureWith norm ds nested s pd.name).andThen fun s =>
+          match s.tableOf norm pd.name with
+          | none => .ok s
+          | some tp => .ok (s.link rule t tp)
+
+/-- one first-level declaration: "already defined?" lookup, type resolution, insertion -/
+def declStep (norm : α → α) (ds : List (ClassDecl α)) (nested : St α → ClassDecl α → Res α)
+    (t : Nat) (uses : List α) (s : St α) (dc : Decl α) : Res α :=
+  (s.lookup norm t dc.name).andThen fun s =>
+    (match dc with
+      | .plain _ => Res.ok s
+      | .viaUses _ => (s.lookupMiss t).andThen (usesLoop norm ds nested uses)).andThen fun s =>
+        .ok (s.insertSym t dc.name)
+
+/-- `annotate_doc` of class `d` once its nested analyses are given (`defsOnly`: first-level
+    definitions only): publish the table FIRST, then the parent, the declarations in file
+    order, and (full analysis) the method bodies -/
+def annotateBody (rule : Rule) (norm : α → α) (ds : List (ClassDecl α)) (nested : St α → ClassDecl α → Res α)
+    (s : St α) (d : ClassDecl α) (defsOnly : Bool) : Res α :=
+  let t := s.tables.length
+  let s : St α := { (s.newTable d.name).1 with
+                    pub := (norm d.name, t) :: s.pub,
+                    full := if defsOnly then s.full else norm d.name :: s.full }
+  let r := (linkParent rule norm ds nested t d s).andThen fun s =>
+    .ok ((s.insertSym t d.name).insertSym t d.name)          -- the class itself and `self`
+  let r := d.decls.foldl (fun r dc => r.andThen fun s => declStep norm ds nested t d.uses s dc) r
+  if defsOnly || !d.body then r
+  else r.andThen fun s => (s.lookupMiss t).andThen (usesLoop norm ds nested d.uses)
+
+/-- `annotate_doc`; `fuel` bounds the nesting of analyses (every nested analysis publishes a
+    table first, so the number of classes is always enough) -/
 def annotate (rule : Rule) (norm : α → α) (ds : List (ClassDecl α)) : Nat → St α → ClassDecl α → Bool → Res α
   | 0, s, _, _ => .ok s
   | k + 1, s, d, defsOnly =>
-    -- `get_symbol_table_for_class_def_only`: the published table, else a definitions-only analysis
-    let ensure : St α → α → Res α := fun s c =>
-      match findDecl norm ds c with
-      | none => .ok s
-      | some cd =>
-        match s.tableOf norm cd.name with
-        | some _ => .ok s
-        | none => annotate rule norm ds k s cd true
-    -- lookups in the chain of a used entity (after making sure it has a table)
-    let useLookup : St α → α → Res α := fun s u =>
-      (ensure s u).andThen fun s =>
-        match s.tableOf norm u with
-        | none => .ok s
-        | some tu => s.lookupMiss tu
-    -- publish first
-    let t := s.tables.length
-    let s : St α := { (s.newTable d.name).1 with
-                      pub := (norm d.name, t) :: s.pub,
-                      full := if defsOnly then s.full else norm d.name :: s.full }
-    -- handle_class
-    let r : Res α :=
-      match d.parent with
-      | none => .ok s
-      | some p =>
-        if rule.guard norm p d.name then .ok s
-        else match findDecl norm ds p with
-          | none => .ok s
-          | some pd =>
-            (ensure s pd.name).andThen fun s =>
-              match s.tableOf norm pd.name with
-              | none => .ok s
-              | some tp => .ok (s.link rule t tp)
-    let r := r.andThen fun s => .ok ((s.insertSym t d.name).insertSym t d.name)   -- the class itself and `self`
-    -- first-level declarations in file order
-    let r := d.decls.foldl (fun r dc =>
-      r.andThen fun s =>
-        (s.lookup norm t dc.name).andThen fun s =>
-          let r := match dc with
-            | .plain _ => Res.ok s
-            | .viaUses _ => (s.lookupMiss t).andThen fun s => d.uses.foldl (fun r u => r.andThen fun s => useLookup s u) (.ok s)
-          r.andThen fun s => .ok (s.insertSym t dc.name)) r
-    -- method bodies (full analysis only)
-    if defsOnly || !d.body then r
-    else r.andThen fun s =>
-      (s.lookupMiss t).andThen fun s => d.uses.foldl (fun r u => r.andThen fun s => useLookup s u) (.ok s)
+    annotateBody rule norm ds (fun s cd => annotate rule norm ds k s cd true) s d defsOnly
 
 /-- `get_symbol_table_for_class_def_only(c)` from outside an analysis -/
 def ensureTable (rule : Rule) (norm : α → α) (ds : List (ClassDecl α)) (s : St α) (c : α) : Res α :=
@@ -344,51 +361,58 @@ def downNodes (tchildren : Nat → List Nat) (stop : Nat → Bool) : Nat → Lis
         let (l, v) := downNodes tchildren stop k acc.2 c
         (acc.1 ++ l, v)) ([n], n :: vis)
 
-/-- one request of kind `kd` on class `c` -/
+/-- `get_symbol_table_for_class_def_only` for the classes of the tree nodes `l`, in order -/
+def ensureNodes (rule : Rule) (norm : α → α) (ds : List (ClassDecl α)) (l : List Nat) (s : St α) : Res α :=
+  l.foldl (fun r i => r.andThen fun s =>
+    match ds[i]? with
+    | some cd => ensureTable rule norm ds s cd.name
+    | none => .ok s) (.ok s)
+
+def stuckIf (s : St α) (w : WalkRes) : Res α :=
+  match w with
+  | .done => .ok s
+  | w => { st := s, stuck := some w }
+
+def walkFuel (norm : α → α) (ds : List (ClassDecl α)) : Nat := ds.length + (treeKeys norm ds).length + 2
+
+/-- the downward walk over all children of node `ci` -/
+def walkDownAll (tchildren : Nat → List Nat) (stop : Nat → Bool) (repaired : Bool) (fuel ci : Nat) : WalkRes × List Nat × List Nat :=
+  (tchildren ci).foldl (fun (acc : WalkRes × List Nat × List Nat) c =>
+    match acc with
+    | (WalkRes.done, h, v) => walkDown tchildren stop repaired fuel h v c
+    | other => other) (WalkRes.done, [], [ci])
+
+def downNodesAll (tchildren : Nat → List Nat) (stop : Nat → Bool) (fuel ci : Nat) : List Nat :=
+  ((tchildren ci).foldl (fun (acc : List Nat × List Nat) c =>
+    let (l, v) := downNodes tchildren stop fuel acc.2 c
+    (acc.1 ++ l, v)) ([], [ci])).1
+
+/-- the member walks (supertypes, then subtypes) from the entity of class `ci`; `stop i`: the
+    class of node `i` declares the member, or has no file -/
+def memberWalks (rule : Rule) (norm : α → α) (ds : List (ClassDecl α)) (ci : Nat) (stop : Nat → Bool) (s : St α) : Res α :=
+  let n := walkFuel norm ds
+  let tparent := treeParent norm ds
+  let tchildren := treeChildren norm ds
+  (match tparent ci with
+    | none => Res.ok s
+    | some p =>
+      (ensureNodes rule norm ds (upNodes tparent stop rule.visitedWalks n [ci] p) s).andThen fun s =>
+        stuckIf s (walkUp tparent stop rule.visitedWalks n [ci] p)).andThen fun s =>
+    (ensureNodes rule norm ds (downNodesAll tchildren stop n ci) s).andThen fun s =>
+      stuckIf s (walkDownAll tchildren stop rule.visitedWalks n ci).1
+
+def declaresAt (norm : α → α) (ds : List (ClassDecl α)) (m : α) (i : Nat) : Bool :=
+  match ds[i]? with
+  | none => true                                  -- no file: the table lookup fails, the walk stops
+  | some cd => cd.decls.any (fun x => norm x.name = norm m)
+
+def noFile (ds : List (ClassDecl α)) (i : Nat) : Bool := (ds[i]?).isNone
+
+/-- one request of kind `kd` on the class of file `ci` -/
 def request (rule : Rule) (norm : α → α) (ds : List (ClassDecl α)) (s : St α) (kd : Kind) (ci : Nat) : Res α :=
   match ds[ci]? with
   | none => .ok s
   | some d =>
-    let n := ds.length + (treeKeys norm ds).length + 2
-    let tparent := treeParent norm ds
-    let tchildren := treeChildren norm ds
-    let ensureNodes : Res α → List Nat → Res α := fun r l =>
-      l.foldl (fun r i => r.andThen fun s =>
-        match ds[i]? with
-        | some cd => ensureTable rule norm ds s cd.name
-        | none => .ok s) r
-    let declaresAt (m : α) (i : Nat) : Bool :=
-      match ds[i]? with
-      | none => true                                  -- no file: the table lookup fails, the walk stops
-      | some cd => cd.decls.any (fun x => norm x.name = norm m)
-    let noFile (i : Nat) : Bool := (ds[i]?).isNone
-    -- the member walks from the entity of `c`; `stop i`: the class of node `i` declares the member / has no file
-    let memberWalks : Res α → (Nat → Bool) → Res α := fun r stop =>
-      r.andThen fun s =>
-        -- upwards
-        let up : Res α :=
-          match tparent ci with
-          | none => .ok s
-          | some p =>
-            let r := ensureNodes (.ok s) (upNodes tparent stop rule.visitedWalks n [ci] p)
-            r.andThen fun s =>
-              match walkUp tparent stop rule.visitedWalks n [ci] p with
-              | .done => .ok s
-              | w => { st := s, stuck := some w }
-        up.andThen fun s =>
-          -- downwards
-          let nodes := (tchildren ci).foldl (fun (acc : List Nat × List Nat) c =>
-            let (l, v) := downNodes tchildren stop n acc.2 c
-            (acc.1 ++ l, v)) ([], [ci])
-          let r := ensureNodes (.ok s) nodes.1
-          r.andThen fun s =>
-            let w := (tchildren ci).foldl (fun (acc : WalkRes × List Nat × List Nat) c =>
-              match acc with
-              | (.done, h, v) => walkDown tchildren stop rule.visitedWalks n h v c
-              | other => other) (.done, [], [ci])
-            match w.1 with
-            | .done => .ok s
-            | x => { st := s, stuck := some x }
     match kd with
     | .diag => analyzeFull rule norm ds s d.name
     | .defn =>
@@ -396,7 +420,7 @@ def request (rule : Rule) (norm : α → α) (ds : List (ClassDecl α)) (s : St 
         match s.tableOf norm d.name with
         | none => .ok s
         | some t =>
-          -- the class name and the parent name resolve in the own chain; the probes of a body miss
+          -- the class name resolves in the own table; the probes of a method body miss
           (s.lookup norm t d.name).andThen fun s => if d.body then s.lookupMiss t else .ok s
     | .comp =>
       (analyzeFull rule norm ds s d.name).andThen fun s =>
@@ -405,13 +429,16 @@ def request (rule : Rule) (norm : α → α) (ds : List (ClassDecl α)) (s : St 
         | some t => s.lookupMiss t                    -- `collect_unique_symbols_w_parents` locks the whole chain
     | .hier =>
       (analyzeFull rule norm ds s d.name).andThen fun s =>
-        -- class item: the parent entity's and the child entities' items
-        let r := ensureNodes (.ok s) ((tparent ci).toList ++ tchildren ci)
-        d.members.foldl (fun r m => memberWalks r (declaresAt m)) r
+        -- class item: the items of the parent entity and of the child entities
+        (ensureNodes rule norm ds ((treeParent norm ds ci).toList ++ treeChildren norm ds ci) s).andThen fun s =>
+          d.members.foldl (fun r m => r.andThen (memberWalks rule norm ds ci (declaresAt norm ds m))) (.ok s)
     | .hierx =>
-      (ensureTable rule norm ds s d.name).andThen fun s =>
-        -- a member name nobody declares: the walks stop only where there is no file
-        memberWalks (.ok s) noFile
+      -- a member name nobody declares: the walks stop only where there is no file
+      (ensureTable rule norm ds s d.name).andThen (memberWalks rule norm ds ci (noFile ds))
+
+/-- a sequence of requests `(kind, file)`; stops at the first one that does not return -/
+def runRequests (rule : Rule) (norm : α → α) (ds : List (ClassDecl α)) (reqs : List (Kind × Nat)) (s : St α) : Res α :=
+  reqs.foldl (fun r q => r.andThen fun s => request rule norm ds s q.1 q.2) (.ok s)
 
 end
 end Gold.Locks
